@@ -139,12 +139,26 @@ def long_lists(rng, n):
 class Intern:
     def __init__(self):
         self.d = {}
+        self.keys = []
 
     def __call__(self, key):
-        key = repr(key)
-        if key not in self.d:
-            self.d[key] = len(self.d)
-        return self.d[key]
+        k = repr(key)
+        if k not in self.d:
+            self.d[k] = len(self.d)
+            self.keys.append(key)
+        return self.d[k]
+
+    def other_sizes(self, table):
+        """[[id, encoded size]] of the interned opaque instructions, from the
+        instruction table {final op name: size}"""
+        out = []
+        for i, key in enumerate(self.keys):
+            if key[0] == 'other':
+                _, op, tc, stc, scope, args = key
+                name = op + scope + stc + tc
+                if name in table:
+                    out.append([i, table[name]])
+        return out
 
 
 class Unsupported(Exception):
